@@ -10,8 +10,8 @@ def sh(cmd, cwd=None, env=None, timeout=1800):
 
 out = {}
 only = sys.argv[1:]
-for d in sorted(glob.glob("/tmp/mut/C*/m*")):
-    mid = d[len("/tmp/mut/"):]
+for d in sorted(glob.glob(os.environ.get("MUTROOT","/tmp/mut")+"/C*/m*")):
+    mid = d[len(os.environ.get("MUTROOT","/tmp/mut"))+1:]
     if only and not any(mid.startswith(o) for o in only):
         continue
     if not os.path.exists(d + "/patch.diff") or not os.path.exists(d + "/demo.py"):
@@ -39,4 +39,4 @@ for d in sorted(glob.glob("/tmp/mut/C*/m*")):
     sh("git -C /repo worktree remove --force %s" % wt)
     shutil.rmtree(wt, ignore_errors=True)
     print(mid, {k: v for k, v in r.items() if k not in ("diff", "demo_tail")}, flush=True)
-    json.dump(out, open("/tmp/mut/confirm.json", "w"), indent=1)
+    json.dump(out, open(os.environ.get("MUTROOT","/tmp/mut")+"/confirm.json", "w"), indent=1)
